@@ -66,7 +66,11 @@ type lspSession struct {
 	root   string
 }
 
-func startLSP(root string) (*lspSession, error) {
+func startLSP(root string, clientName ...string) (*lspSession, error) {
+	cname := "verif"
+	if len(clientName) > 0 && clientName[0] != "" {
+		cname = clientName[0]
+	}
 	ctx, cancel := context.WithCancel(context.Background())
 	ls := lsp.NewLanguageServer(ctx, &lsp.LanguageServerOptions{LogWriter: io.Discard, LogLevel: log.LevelOff})
 	go ls.StartDiagnosticsWorker(ctx)
@@ -89,7 +93,7 @@ func startLSP(root string) (*lspSession, error) {
 	cctx, c2 := context.WithTimeout(ctx, 20*time.Second)
 	defer c2()
 	var resp types.InitializeResult
-	if err := connClient.Call(cctx, "initialize", types.InitializeParams{RootURI: "file://" + root, ClientInfo: types.Client{Name: "verif"}}, &resp); err != nil {
+	if err := connClient.Call(cctx, "initialize", types.InitializeParams{RootURI: "file://" + root, ClientInfo: types.Client{Name: cname}}, &resp); err != nil {
 		cancel()
 		return nil, fmt.Errorf("initialize: %w", err)
 	}
@@ -314,7 +318,7 @@ func init() {
 		if err := writeTree(root, toStrMap(req["files"])); err != nil {
 			return nil, err
 		}
-		s, err := startLSP(root)
+		s, err := startLSP(root, str(req, "client"))
 		if err != nil {
 			return map[string]any{"error": err.Error()}, nil
 		}
@@ -326,7 +330,9 @@ func init() {
 			switch str(msg, "fs") {
 			case "write":
 				_ = writeTree(root, map[string]string{str(msg, "file"): str(msg, "text")})
-				time.Sleep(120 * time.Millisecond)
+				if !boolv(msg, "noPause") {
+					time.Sleep(120 * time.Millisecond)
+				}
 				results = append(results, "fs")
 				continue
 			case "remove":
@@ -339,6 +345,18 @@ func init() {
 			text := strings.ReplaceAll(string(raw), "$ROOT", "file://"+root)
 			var params any
 			_ = json.Unmarshal([]byte(text), &params)
+			if boolv(msg, "notify") {
+				// a true notification: the client does not wait, the next message follows at once
+				nctx, ncancel := context.WithTimeout(context.Background(), 10*time.Second)
+				err := s.conn.Notify(nctx, str(msg, "method"), params)
+				ncancel()
+				if err != nil {
+					results = append(results, "timeout")
+				} else {
+					results = append(results, "ok")
+				}
+				continue
+			}
 			r := s.call(str(msg, "method"), params, 10*time.Second)
 			if strings.HasPrefix(r, "error:") {
 				r = "error" // a JSON-RPC error response is a response
